@@ -104,9 +104,11 @@ func (s *state) removeTorrent(h core.InfoHash, err error) {
 	if !ok {
 		return
 	}
+	// A complete torrent is normally ejected by its completion event, but that
+	// event may not have been applied yet.
+	s.announceQueue.Eject(h)
 	if !ctrl.dispatcher.Complete() {
 		ctrl.dispatcher.TearDown()
-		s.announceQueue.Eject(h)
 		s.sched.netevents.Produce(networkevent.TorrentCancelledEvent(h, s.sched.pctx.PeerID))
 		if err := s.sched.torrentArchive.DeleteTorrent(ctrl.dispatcher.Digest()); err != nil {
 			s.sched.log().Errorf("Error deleting torrent from archive: %s", err)
